@@ -275,6 +275,42 @@ func allocateEmpties(m protoreflect.Message, depth int) {
 	}
 }
 
+// emptyMapValues adds entries with an empty value to the string-valued maps (both unserializers produce them).
+func emptyMapValues(m proto.Message) {
+	node := func(n *sbom.Node) {
+		if n.Hashes == nil {
+			n.Hashes = map[int32]string{}
+		}
+		n.Hashes[int32(sbom.HashAlgorithm_SHA512)] = ""
+		n.Hashes[int32(sbom.HashAlgorithm_MD5)] = ""
+		if n.Identifiers == nil {
+			n.Identifiers = map[int32]string{}
+		}
+		n.Identifiers[int32(sbom.SoftwareIdentifierType_CPE22)] = ""
+		for _, er := range n.ExternalReferences {
+			if er.Hashes == nil {
+				er.Hashes = map[int32]string{}
+			}
+			er.Hashes[int32(sbom.HashAlgorithm_SHA1)] = ""
+		}
+	}
+	switch v := m.(type) {
+	case *sbom.Node:
+		node(v)
+	case *sbom.NodeList:
+		for i, n := range v.Nodes {
+			if i%2 == 0 {
+				node(n)
+			}
+		}
+	case *sbom.ExternalReference:
+		if v.Hashes == nil {
+			v.Hashes = map[int32]string{}
+		}
+		v.Hashes[int32(sbom.HashAlgorithm_SHA1)] = ""
+	}
+}
+
 // shareContacts makes one *Person reachable through two paths of the same value.
 func shareContacts(m proto.Message) {
 	link := func(ps []*sbom.Person, qs []*sbom.Person) {
@@ -855,6 +891,9 @@ func execC12(sc *core.Scenario) *core.Result {
 		m := valFrom(v)
 		if i%2 == 1 || sc.Run%3 == 0 {
 			allocateEmpties(m.ProtoReflect(), 0) // values built with NewNode()/NewNodeList() carry empty, non-nil collections
+		}
+		if sc.Run%3 == 0 {
+			emptyMapValues(m) // map entries whose value is the empty string (an algorithm listed without a digest)
 		}
 		if sc.Run%4 == 1 {
 			shareContacts(m) // one person reachable twice inside the value (a DAG, not a tree)
